@@ -4,7 +4,7 @@ use crate::adapter::*;
 use crate::chess::fen;
 use crate::chess::zobrist;
 use crate::framework::*;
-use crate::gen::Mix;
+use crate::gen::{self, Mix};
 use crate::refchess::{Pc, Pos};
 use proptest::prelude::*;
 use serde::{Deserialize, Serialize};
@@ -265,6 +265,9 @@ pub fn run(run: &mut Run) -> &'static str {
             }
             if want.len() >= 97 {
                 st.class("fen_text_of_97_or_more_characters");
+            }
+            for c in gen::material_classes(&p) {
+                st.class(c);
             }
             let g = to_game(&p);
             let text = fen::write(&g);
